@@ -2,6 +2,7 @@
 from .. import wire
 from ..choose import Chooser
 from ..runner import Result
+from ..drive import h2
 from ..solo import Solo, REQ, RESP
 
 ID = 'C26'
@@ -102,6 +103,11 @@ def run_case(data):
                 return r
             got_events += [e for e in o.events if e[0] in ('PingReceived', 'PingAckReceived')]
             got_frames += o.frames
+            # applications tell events apart with isinstance(): an acknowledgement must not pass for a ping,
+            # nor a ping for an acknowledgement
+            for e in o.raw_events:
+                if isinstance(e, h2.events.PingReceived) and isinstance(e, h2.events.PingAckReceived):
+                    r.violate('C26:event-is-both-PingReceived-and-PingAckReceived', type(e).__name__)
         r.step('recv', kinds, [len(c) for c in chunks], buf)
         if got_events != expect_events:
             r.violate('C26:ping-events-differ', 'want %r got %r' % (expect_events, got_events))
